@@ -121,7 +121,7 @@ func runBytes(carrier, mode string, n, part int, seed uint64) (string, string) {
 		return runSweep(carrier, part, n, 1, seed)
 	}
 	tmode := "echo"
-	if mode == "up" {
+	if mode == "up" || mode == "uplazy" {
 		tmode = "sink"
 	} else if mode == "upslow" {
 		tmode = "slowsink:3500"
@@ -155,6 +155,9 @@ func runBytes(carrier, mode string, n, part int, seed uint64) (string, string) {
 			return "bad-op", "no relay on this carrier"
 		}
 		rig.Relay.SetRate(4096)
+	}
+	if mode == "uplazy" || mode == "echolazy" {
+		return runLazy(rig, carrier, mode, n, part, seed, e2eDeadline(carrier, n))
 	}
 	c, err := rig.Dial("echo")
 	if err != nil {
@@ -312,6 +315,12 @@ func (bytesComp) Gen(r *Rand, tier string, emit func(string)) {
 	}
 	// a slow carrier: a transfer that takes longer than any keep-alive or idle time-out a session might have
 	emit(fmt.Sprintf("tcp+slow up 40000 0 %d", r.Next()%1000))
+	// a peer that selects the channel lazily: selection tokens and first payload bytes in one write
+	for _, n := range []int{1, 700, 40000} {
+		emit(fmt.Sprintf("tcp uplazy %d 0 %d", n, r.Next()%1000))
+	}
+	emit(fmt.Sprintf("ws echolazy 3000 1000 %d", r.Next()%1000))
+	emit(fmt.Sprintf("tcptls uplazy 200000 0 %d", r.Next()%1000))
 	// several channels behind one endpoint: the bytes reach the target of the channel that was asked for
 	emit(fmt.Sprintf("tcp+multi echo 5000 0 %d", r.Next()%1000))
 	emit(fmt.Sprintf("tcp+multi up 40000 1000 %d", r.Next()%1000))
